@@ -210,6 +210,9 @@ class Ctx:
         for v in self.violations:
             key = json.dumps(v["sig"], sort_keys=True)
             groups.setdefault(key, []).append(v)
+        if os.environ.get("VERIF_DEBUG"):
+            with open(os.path.join(VERIF, "build", "violations-%s.json" % self.prop), "w") as f:
+                json.dump(self.violations, f, default=str)
         rdir = os.path.join(VERIF, "replays", self.prop)
         nrep = 0
         for key, vs in groups.items():
